@@ -186,6 +186,15 @@ func (m *monitor) insert(b []int) {
 		m.lastGiven = b[reached-1]
 	}
 	switch {
+	case err != nil && (firstBad < 0 || n < firstBad) && strings.Contains(err.Error(), "missing trie node"):
+		// A block that is already known WITH state (a former head or head-1 of a
+		// side branch, flushed at a Stop) is re-executed when the head is below its
+		// number, but its parent's state was pruned: InsertChain gives up with a
+		// missing-state error. The rest of the batch is then never validated, so
+		// the head is still the heaviest VALIDATED block: the property as stated
+		// holds (found by the thorough tier, medium-85-2; same code path as
+		// upstream). Counted as an observation, not a violation.
+		m.count("obs_valid_batch_not_importable_known_block_on_pruned_parent")
 	case err != nil && (firstBad < 0 || n < firstBad):
 		// every block up to the failing index is self-consistent with valid,
 		// already delivered ancestors: the node must take it
